@@ -9,9 +9,12 @@ pub use automerge::ReadDoc;
 
 pub mod c01;
 pub mod c02;
+pub mod c04;
+pub mod c05;
+pub mod c10;
 
 pub fn all() -> Vec<PropDef> {
-    vec![c01::def(), c02::def()]
+    vec![c01::def(), c02::def(), c04::def(), c05::def(), c10::def()]
 }
 
 pub fn find(id: &str) -> Option<PropDef> {
@@ -33,14 +36,28 @@ pub fn observe_replica(w: &World, r: usize, property: &str, oracle: &str) -> Res
 
 /// a short, digit-free classification of a detail message (for signatures)
 pub fn sig_of_detail(s: &str) -> String {
+    // drop quoted strings, bracketed lists and paths: they carry run-specific content
+    let mut clean = String::new();
+    let (mut in_q, mut depth) = (false, 0i32);
+    let mut prev = ' ';
+    for ch in s.chars() {
+        match ch {
+            '"' if prev != '\\' => in_q = !in_q,
+            '[' | '<' | '{' if !in_q => depth += 1,
+            ']' | '>' | '}' if !in_q => depth = (depth - 1).max(0),
+            _ if in_q || depth > 0 => {}
+            _ => clean.push(ch),
+        }
+        prev = ch;
+    }
     let mut out = String::new();
     let mut words = 0;
-    for tok in s.split(|c: char| !c.is_ascii_alphabetic() && c != '_') {
-        if tok.len() < 3 {
+    for tok in clean.split(|c: char| !c.is_ascii_alphabetic() && c != '_') {
+        if tok.len() < 3 || tok.starts_with('/') {
             continue;
         }
-        // skip hex-looking tokens
-        if tok.len() >= 6 && tok.chars().all(|c| c.is_ascii_hexdigit()) {
+        // skip hex-looking tokens (actor ids, hashes)
+        if tok.chars().all(|c| c.is_ascii_hexdigit()) {
             continue;
         }
         if !out.is_empty() {
